@@ -165,6 +165,7 @@ def r3_cooling(ctx):
 
 
 def run(ctx):
+    ctx.guard("C17.R4", "`better` is the numeric order of the objective values (ties incl. -0.0 / +0.0 are ties)", lambda: __import__("c09").r3_total_order(ctx, "C17.R4"))
     ctx.guard("C17.INIT", "init installs the configured state", lambda: __import__("initspec").check_for(ctx, "C17"))
     ctx.guard("C17.K17", "constructor fidelity", lambda: __import__("ctor").check_for(ctx, "C17", 3))
     ctx.guard("C17.R1", "acceptance", lambda: r1_acceptance(ctx))
